@@ -486,6 +486,11 @@ def ddict_set_rules(prog, res):
         for b, i in begins:
             call = [c for bb, ii, c in f.calls("ZSTD_decompressBegin_usingDDict") if (bb, ii) == (b, i)]
             arg = strip_casts(f.resolve_x(call[0]["a"][1])) if call and len(call[0].get("a", [])) > 1 else None
+            if arg is not None and arg.get("k") == "cond":
+                # `skippable ? NULL : ZSTD_getDDict(zds)`: the arm that names a dictionary is what has to be selected
+                arms = [strip_casts(f.resolve_x(a)) for a in (arg.get("t"), arg.get("f")) if isinstance(a, dict)]
+                arms = [a for a in arms if a is not None and const_val(a) != 0]
+                arg = arms[0] if len(arms) == 1 else arg
             if arg is not None and arg.get("k") == "call":
                 sel += [t for t in look if not any(is_call(y, "ZSTD_DDictHashSet_getDDict") for y in walk(f.blocks[t[0]]["el"][t[1]]))]
             elif arg is not None and arg.get("k") == "ref":
@@ -594,6 +599,31 @@ def repcodes_copied_whole(prog, res):
     res.need(R, 2)
 
 
+def single_use_dictionary_only_for_a_real_frame(prog, res):
+    """T3: ZSTD_getDDict() CONSUMES a dictionary referenced for one frame (ZSTD_DCtx_refPrefix: dictUses == ZSTD_use_once).
+    A skippable frame decodes nothing, so in ZSTD_decompressStream every evaluation of ZSTD_getDDict lies either on an edge
+    where the frame at hand is known not to be skippable (a flag computed from ZSTD_MAGIC_SKIPPABLE_START, or
+    `frameType != ZSTD_skippableFrame`), or in the legacy arm (legacy frames are never skippable: ZSTD_isLegacy edge)."""
+    R = "T3.single-use-dictionary-only-for-a-real-frame"
+    f = prog.fn("ZSTD_decompressStream")
+    gets = f.call_roots("ZSTD_getDDict")
+    res.check(len(gets) >= 3, R, "sites", f.loc, "%d ZSTD_getDDict sites" % len(gets), "ZSTD_getDDict sites in ZSTD_decompressStream: %d" % len(gets))
+    skipvars = {n for n, ds in f.local_defs().items() for d in ds if d is not None
+                and any("ZSTD_MAGIC_SKIPPABLE_START" in (y.get("m") or []) or y.get("n") == "ZSTD_MAGIC_SKIPPABLE_START" for y in f.walk_deep(d))}
+    notskip = guards.truthy_edges(f, lambda c: c.get("k") == "ref" and c.get("n") in skipvars, truth=False)
+    notskip += guards.rel_edges(f, lambda a: any(y.get("k") == "mem" and y.get("f") == "frameType" for y in walk(a)), "!=",
+                                lambda b_: any(y.get("n") == "ZSTD_skippableFrame" for y in walk(b_)), truth=True)
+    legacy = guards.truthy_edges(f, lambda c: c.get("k") == "ref" and any(is_call(y, "ZSTD_isLegacy") for y in f.walk_deep(c)), truth=True) + \
+        cond_edges(f, lambda c: is_call(c, "ZSTD_isLegacy"), "true")
+    for t in gets:
+        line = f.blocks[t[0]]["el"][t[1]].get("l")
+        ok = f.must_pass(via_edges=notskip + legacy, targets=[t])
+        res.check(ok, R, "ZSTD_decompressStream@%s" % line, f.loc, "the dictionary is fetched only for a frame that is not skippable",
+                  "ZSTD_decompressStream fetches (and so consumes) the single-use dictionary for a skippable frame: after ZSTD_DCtx_refPrefix, "
+                  "[skippable frame][frame compressed with the prefix] fails with corruption_detected, where ZSTD_decompressDCtx decodes it")
+    res.need(R, 4)
+
+
 def run(tier):
     res = Result("C08", tier)
     tus, info = extract(["compress", "common", "decompress", "dictBuilder"])
@@ -611,6 +641,7 @@ def run(tier):
     repcodes_copied_whole(prog, res)
     ddict_set_rules(prog, res)
     window_covers_whole_dictionary(prog, res)
+    single_use_dictionary_only_for_a_real_frame(prog, res)
     return res.finish(
         explanation="Both entropy loaders read the same tables with the same maxima and limits and refuse the same structural "
                     "faults; `valid` repeat modes are only reachable when the table provably covers every required symbol; "
